@@ -63,11 +63,13 @@ def gen_case(tape, tier):
     def key(sizes, allow_bad=False):
         k = []
         for n in sizes:
-            t = tape.pick(["int", "int", "neg", "slice", "slice"], "ktype")
+            t = tape.pick(["int", "int", "neg", "slice", "slice", "npint"], "ktype")
             if t == "int":
                 k.append(tape.choose(n, "idx"))
             elif t == "neg":
                 k.append(-1 - tape.choose(n, "idx"))
+            elif t == "npint":
+                k.append({"np": tape.choose(2 * n, "idx") - n})  # NumPy integer, possibly negative
             else:
                 a = tape.pick([None, 0, 1, -1], "sl-a")
                 b = tape.pick([None, n, n - 1, 1, -1], "sl-b")
@@ -129,7 +131,7 @@ def simplify(case):
                     c = copy.deepcopy(case)
                     c["ops"][i]["key"][j] = 0
                     yield c
-                    if k["slice"] != [None, None, None]:
+                    if "slice" in k and k["slice"] != [None, None, None]:
                         c = copy.deepcopy(case)
                         c["ops"][i]["key"][j] = {"slice": [None, None, None]}
                         yield c
@@ -140,7 +142,9 @@ def simplify(case):
 
 
 def _key(k):
-    return tuple(slice(*x["slice"]) if isinstance(x, dict) else x for x in k)
+    """JSON key -> Python key; {'np': n} is a NumPy integer (what index arithmetic on arrays produces)."""
+    return tuple(slice(*x["slice"]) if isinstance(x, dict) and "slice" in x else (np.int64(x["np"]) if isinstance(x, dict) else x)
+                 for x in k)
 
 
 class Model:
@@ -276,7 +280,7 @@ def run_case(case, exec_seed=None, exec_tape=None):
                     if canon(got) != canon(exp):
                         V("model", "getitem-differs", {"step": i, "key": op["key"], "got": repr(canon(got))[:300], "expected": repr(canon(exp))[:300],
                                                        "full": case["full"], "mask": case["mask"]},
-                          {"all_int": all(isinstance(x, int) for x in op["key"]), "internal": bool(m.internal)})
+                          {"all_int": all(not (isinstance(x, dict) and "slice" in x) for x in op["key"]), "internal": bool(m.internal)})
                     probes["read"] = probes.get("read", 0) + 1
                 elif o == "to_array":
                     splat = op["splat"]
